@@ -273,9 +273,12 @@ Definition privileged_ops : list string :=
    "Priv:mint.Init"; "Priv:UpdateSnapshotLimit"]%string.
 
 (* which (operation, role, component) combinations the property allows for a non-signer *)
-Definition exception_ok (op role comp : string) : bool :=
+(* dispute messages carry [fee paid from stake?; is the dispute fully funded after the message?] *)
+Definition funded_after (params : list Z) : bool := match params with [_; 1] => true | _ => false end.
+
+Definition exception_ok (op : string) (params : list Z) (role comp : string) : bool :=
   (* a funded dispute's consequences for the disputed reporter and its backers *)
-  ((str_in op ["ProposeDispute"; "AddFeeToDispute"]%string)
+  ((str_in op ["ProposeDispute"; "AddFeeToDispute"]%string) && funded_after params
      && str_in role ["disputed_reporter"; "backer_of_disputed"]%string && str_in comp ["staked"]%string)
   (* a reporter paying a dispute fee from the stake selected to it *)
   || ((str_in op ["ProposeDispute"; "AddFeeToDispute"]%string)
@@ -293,7 +296,7 @@ Definition c19_step (_ : snap) (s : hstep) : issues :=
    else [])
   ++ (if (st_result s =? 0) && negb (st_signer s <? 0)
       then flat_map (fun d => let '(acct, comp, role) := d in
-                              spec_if ((role =? "signer")%string || exception_ok (st_op s) role comp)
+                              spec_if ((role =? "signer")%string || exception_ok (st_op s) (st_params s) role comp)
                                       ("a message reduced the holdings of an account other than its signer: " ++ st_op s ++ " / " ++ comp))
                     (st_decreased s)
       else if negb (st_result s =? 0)
@@ -310,5 +313,5 @@ Definition hist_classes (c : hist_case) : list string :=
   (if forallb (fun s => sp_credits_nonneg (st_after s)) steps then [] else ["F06"%string])
   (* finding C13b (C13): a dispute fee paid from stake is credited in full but escrowed with truncation *)
   ++ (if existsb (fun s => ((st_op s =? "ProposeDispute") || (st_op s =? "AddFeeToDispute"))%string && (st_result s =? 0)
-                          && match st_params s with [1] => true | _ => false end) steps
+                          && match st_params s with 1 :: _ => true | _ => false end) steps
       then ["C13b"%string] else []).
